@@ -22,14 +22,14 @@ func c20Counts(tier string) int64 {
 	if tier == "thorough" {
 		return 60000
 	}
-	return 3000
+	return 8000
 }
 
 func init() {
 	Register(&Prop{
-		ID:   "C20",
-		Rule: "workspaces of 1-4 journals from G with shared symbol pools (chains, stars, diamonds, random DAGs; amounts in every notation of G with up to 12 decimals, postings with and without amounts), with and without workspace root; hover on EVERY account, payee/description, tag name, tag value and amount occurrence of every file; the markdown is parsed back and compared with exact rational arithmetic on the model over the scope (workspace tree with a root, the file and its include closure without; each file once): per-commodity sums and posting count for accounts, transaction count for payees, use counts for tags and tag values, value and cost for amounts. A missing answer on an occurrence is a violation. Non-trivial = figure aggregated over >=2 files; distinct by workspace+symbol hash.",
-		Notes: []string{"posting count: both readings of 'such postings' are accepted (all postings to the account, or those with an explicit amount)", "files come from the clean pool of G"},
+		ID:          "C20",
+		Rule:        "workspaces of 1-4 journals from G with shared symbol pools (chains, stars, diamonds, random DAGs; amounts in every notation of G with up to 12 decimals, postings with and without amounts), with and without workspace root; hover on EVERY account, payee/description, tag name, tag value and amount occurrence of every file; the markdown is parsed back and compared with exact rational arithmetic on the model over the scope (workspace tree with a root, the file and its include closure without; each file once): per-commodity sums and posting count for accounts, transaction count for payees, use counts for tags and tag values, value and cost for amounts. A missing answer on an occurrence is a violation. A second round follows an unsaved edit (an added transaction on existing accounts/payees) in another file of the workspace. Non-trivial = figure aggregated over >=2 files; distinct by workspace+symbol hash.",
+		Notes:       []string{"posting count: both readings of 'such postings' are accepted (all postings to the account, or those with an explicit amount)", "files come from the clean pool of G"},
 		Cases:       c20Counts,
 		MustObserve: []string{"workspaces", "account_hovers", "payee_hovers", "tag_hovers", "amount_hovers", "figures_over_several_files"},
 		Setup:       func(c *Ctx) { c.State = &c20State{bad: c.Known.BadFeatureSets("C03", "C08", "C20")} },
@@ -86,202 +86,243 @@ func runC20(c *Ctx, idx int64) {
 	fail := func(kind, detail string) {
 		c.Violate(Violation{Kind: kind, Sig: "C20:" + kind + "|" + mode, Pool: "clean", Detail: detail, Witness: map[string]any{"workspace": w.String(), "workspace_root": w.Root}})
 	}
-	for from := range w.Names {
-		scope := w.Scope(from)
-		// model aggregates over the scope
-		type acctAgg struct {
-			sums     map[string]*big.Rat
-			all, amt int
-			files    map[int]bool
-		}
-		accts := map[string]*acctAgg{}
-		payees := map[string]int{}
-		payeeFiles := map[string]map[int]bool{}
-		tagUse := map[string]int{}
-		tagValUse := map[string]int{}
-		for _, f := range scope {
-			for _, e := range w.Journals[f].Entries {
-				if e.Kind != "tx" {
-					continue
-				}
-				t := e.Tx
-				name := t.Desc
-				if t.DescKind == "payee-note" {
-					name = t.Payee
-				}
-				if t.DescKind != "none" {
-					payees[name]++
-					if payeeFiles[name] == nil {
-						payeeFiles[name] = map[int]bool{}
-					}
-					payeeFiles[name][f] = true
-				}
-				var cms []*MComment
-				cms = append(cms, t.HComment)
-				for i := range t.Lines {
-					if t.Lines[i].Comment != nil {
-						cms = append(cms, t.Lines[i].Comment)
-					}
-					if p := t.Lines[i].Posting; p != nil {
-						cms = append(cms, p.Comment)
-						a := accts[p.Account]
-						if a == nil {
-							a = &acctAgg{sums: map[string]*big.Rat{}, files: map[int]bool{}}
-							accts[p.Account] = a
-						}
-						a.all++
-						a.files[f] = true
-						if p.Amount != nil {
-							a.amt++
-							if a.sums[p.Amount.Commodity] == nil {
-								a.sums[p.Amount.Commodity] = new(big.Rat)
-							}
-							a.sums[p.Amount.Commodity].Add(a.sums[p.Amount.Commodity], p.Amount.Rat())
-						}
-					}
-				}
-				for _, cm := range cms {
-					if cm == nil {
-						continue
-					}
-					for _, tg := range cm.Tags {
-						tagUse[tg.Name]++
-						tagValUse[tg.Name+"\x00"+tg.Value]++
-					}
-				}
+	checkAll := func() bool {
+		for from := range w.Names {
+			scope := w.Scope(from)
+			// model aggregates over the scope
+			type acctAgg struct {
+				sums     map[string]*big.Rat
+				all, amt int
+				files    map[int]bool
 			}
-		}
-		uri := w.URI(s, from)
-		for _, l := range w.Rd[from].Lex {
-			mid := l.U0 + (l.U1-l.U0)/2
-			switch {
-			case l.Kind == "account" && l.Role != "decl":
-				md, ok := hoverText(s, uri, l.Line, mid)
-				c.Count("account_hovers", 1)
-				if !ok {
-					fail("missing-hover(account)", fmt.Sprintf("no hover on account %q at %s %d:%d", l.Name, w.Names[from], l.Line, mid))
-					return
-				}
-				a := accts[l.Name]
-				if len(a.files) >= 2 {
-					c.Count("figures_over_several_files", 1)
-					c.Nontrivial(HashStr(fmt.Sprintf("%d|acct|%s|%d", idx, l.Name, from)))
-				}
-				got := map[string]*big.Rat{}
-				inBal := false
-				for _, ln := range strings.Split(md, "\n") {
-					if strings.HasPrefix(ln, "**Balance:**") {
-						inBal = true
+			accts := map[string]*acctAgg{}
+			payees := map[string]int{}
+			payeeFiles := map[string]map[int]bool{}
+			tagUse := map[string]int{}
+			tagValUse := map[string]int{}
+			for _, f := range scope {
+				for _, e := range w.Journals[f].Entries {
+					if e.Kind != "tx" {
 						continue
 					}
-					if inBal {
-						m := balLineRe.FindStringSubmatch(ln)
-						if m == nil {
-							inBal = false
+					t := e.Tx
+					name := t.Desc
+					if t.DescKind == "payee-note" {
+						name = t.Payee
+					}
+					if t.DescKind != "none" {
+						payees[name]++
+						if payeeFiles[name] == nil {
+							payeeFiles[name] = map[int]bool{}
+						}
+						payeeFiles[name][f] = true
+					}
+					var cms []*MComment
+					cms = append(cms, t.HComment)
+					for i := range t.Lines {
+						if t.Lines[i].Comment != nil {
+							cms = append(cms, t.Lines[i].Comment)
+						}
+						if p := t.Lines[i].Posting; p != nil {
+							cms = append(cms, p.Comment)
+							a := accts[p.Account]
+							if a == nil {
+								a = &acctAgg{sums: map[string]*big.Rat{}, files: map[int]bool{}}
+								accts[p.Account] = a
+							}
+							a.all++
+							a.files[f] = true
+							if p.Amount != nil {
+								a.amt++
+								if a.sums[p.Amount.Commodity] == nil {
+									a.sums[p.Amount.Commodity] = new(big.Rat)
+								}
+								a.sums[p.Amount.Commodity].Add(a.sums[p.Amount.Commodity], p.Amount.Rat())
+							}
+						}
+					}
+					for _, cm := range cms {
+						if cm == nil {
 							continue
 						}
-						v, okv := new(big.Rat).SetString(m[1])
-						if !okv {
-							fail("wrong-sum(unreadable)", fmt.Sprintf("hover on account %q: cannot read balance line %q", l.Name, ln))
-							return
+						for _, tg := range cm.Tags {
+							tagUse[tg.Name]++
+							tagValUse[tg.Name+"\x00"+tg.Value]++
 						}
-						got[m[2]] = v
-					}
-				}
-				same := len(got) == len(a.sums)
-				for cm, v := range a.sums {
-					if got[cm] == nil || got[cm].Cmp(v) != 0 {
-						same = false
-					}
-				}
-				if !same {
-					fail("wrong-sum", fmt.Sprintf("hover on account %q asked from %s: balances %s, the exact sums over %v are %s", l.Name, w.Names[from], fmtDiffs(got), scopeNames(w, scope), fmtDiffs(a.sums)))
-					return
-				}
-				n, okn := intAfter(md, "**Postings:**")
-				if !okn || (n != a.all && n != a.amt) {
-					fail("wrong-count(account)", fmt.Sprintf("hover on account %q asked from %s: %d postings, expected %d (or %d with an amount) over %v", l.Name, w.Names[from], n, a.all, a.amt, scopeNames(w, scope)))
-					return
-				}
-			case l.Kind == "desc" || l.Kind == "payee":
-				md, ok := hoverText(s, uri, l.Line, mid)
-				c.Count("payee_hovers", 1)
-				if !ok {
-					fail("missing-hover(payee)", fmt.Sprintf("no hover on payee %q at %s %d:%d", l.Name, w.Names[from], l.Line, mid))
-					return
-				}
-				if len(payeeFiles[l.Name]) >= 2 {
-					c.Count("figures_over_several_files", 1)
-					c.Nontrivial(HashStr(fmt.Sprintf("%d|payee|%s|%d", idx, l.Name, from)))
-				}
-				n, okn := intAfter(md, "**Transactions:**")
-				if !okn || n != payees[l.Name] {
-					fail("wrong-count(payee)", fmt.Sprintf("hover on payee %q asked from %s: %d transactions, expected %d over %v", l.Name, w.Names[from], n, payees[l.Name], scopeNames(w, scope)))
-					return
-				}
-			case (l.Kind == "tagname" || l.Kind == "tagvalue") && l.Posting >= -1 && w.Journals[from].Entries[l.Entry].Kind == "tx":
-				ch := l.U0
-				if l.Kind == "tagvalue" {
-					ch = mid
-				}
-				md, ok := hoverText(s, uri, l.Line, ch)
-				c.Count("tag_hovers", 1)
-				if !ok {
-					fail("missing-hover("+l.Kind+")", fmt.Sprintf("no hover on %s %q at %s %d:%d", l.Kind, l.Text, w.Names[from], l.Line, ch))
-					return
-				}
-				n, okn := intAfter(md, "**Usage:**")
-				want := tagUse[l.Name]
-				if l.Kind == "tagvalue" {
-					want = tagValUse[l.Name+"\x00"+l.Text]
-				}
-				if !okn || n != want {
-					fail("wrong-count("+l.Kind+")", fmt.Sprintf("hover on %s %q of tag %q asked from %s: usage %d, expected %d over %v", l.Kind, l.Text, l.Name, w.Names[from], n, want, scopeNames(w, scope)))
-					return
-				}
-			case l.Kind == "number" && l.Role == "amount":
-				md, ok := hoverText(s, uri, l.Line, mid)
-				c.Count("amount_hovers", 1)
-				if !ok {
-					fail("missing-hover(amount)", fmt.Sprintf("no hover on amount at %s %d:%d", w.Names[from], l.Line, mid))
-					return
-				}
-				// model posting
-				p := w.Journals[from].Entries[l.Entry].Tx.Postings()[l.Posting]
-				first := strings.SplitN(md, "\n", 2)[0]
-				rest := strings.TrimPrefix(first, "**Amount:** ")
-				f2 := strings.SplitN(rest, " ", 2)
-				v, okv := new(big.Rat).SetString(f2[0])
-				cm := ""
-				if len(f2) > 1 {
-					cm = f2[1]
-				}
-				if !okv || v.Cmp(p.Amount.Rat()) != 0 || cm != p.Amount.Commodity {
-					fail("wrong-amount", fmt.Sprintf("hover on amount at %s line %d shows %q, the amount is %s %q", w.Names[from], l.Line+1, first, ratStr(p.Amount.Rat()), p.Amount.Commodity))
-					return
-				}
-				if p.Cost != nil {
-					label := "**Unit cost:** @ "
-					if p.Cost.Total {
-						label = "**Total cost:** @@ "
-					}
-					i := strings.Index(md, label)
-					okc := false
-					if i >= 0 {
-						f3 := strings.SplitN(strings.TrimSpace(strings.SplitN(md[i+len(label):], "\n", 2)[0]), " ", 2)
-						cv, ok3 := new(big.Rat).SetString(f3[0])
-						cc := ""
-						if len(f3) > 1 {
-							cc = f3[1]
-						}
-						okc = ok3 && cv.Cmp(p.Cost.Amt.Rat()) == 0 && cc == p.Cost.Amt.Commodity
-					}
-					if !okc {
-						fail("wrong-amount(cost)", fmt.Sprintf("hover on amount at %s line %d shows %q, the cost is %s %q (total=%v)", w.Names[from], l.Line+1, md, ratStr(p.Cost.Amt.Rat()), p.Cost.Amt.Commodity, p.Cost.Total))
-						return
 					}
 				}
 			}
+			uri := w.URI(s, from)
+			for _, l := range w.Rd[from].Lex {
+				mid := l.U0 + (l.U1-l.U0)/2
+				switch {
+				case l.Kind == "account" && l.Role != "decl":
+					md, ok := hoverText(s, uri, l.Line, mid)
+					c.Count("account_hovers", 1)
+					if !ok {
+						fail("missing-hover(account)", fmt.Sprintf("no hover on account %q at %s %d:%d", l.Name, w.Names[from], l.Line, mid))
+						return false
+					}
+					a := accts[l.Name]
+					if len(a.files) >= 2 {
+						c.Count("figures_over_several_files", 1)
+						c.Nontrivial(HashStr(fmt.Sprintf("%d|acct|%s|%d", idx, l.Name, from)))
+					}
+					got := map[string]*big.Rat{}
+					inBal := false
+					for _, ln := range strings.Split(md, "\n") {
+						if strings.HasPrefix(ln, "**Balance:**") {
+							inBal = true
+							continue
+						}
+						if inBal {
+							m := balLineRe.FindStringSubmatch(ln)
+							if m == nil {
+								inBal = false
+								continue
+							}
+							v, okv := new(big.Rat).SetString(m[1])
+							if !okv {
+								fail("wrong-sum(unreadable)", fmt.Sprintf("hover on account %q: cannot read balance line %q", l.Name, ln))
+								return false
+							}
+							got[m[2]] = v
+						}
+					}
+					same := len(got) == len(a.sums)
+					for cm, v := range a.sums {
+						if got[cm] == nil || got[cm].Cmp(v) != 0 {
+							same = false
+						}
+					}
+					if !same {
+						fail("wrong-sum", fmt.Sprintf("hover on account %q asked from %s: balances %s, the exact sums over %v are %s", l.Name, w.Names[from], fmtDiffs(got), scopeNames(w, scope), fmtDiffs(a.sums)))
+						return false
+					}
+					n, okn := intAfter(md, "**Postings:**")
+					if !okn || (n != a.all && n != a.amt) {
+						fail("wrong-count(account)", fmt.Sprintf("hover on account %q asked from %s: %d postings, expected %d (or %d with an amount) over %v", l.Name, w.Names[from], n, a.all, a.amt, scopeNames(w, scope)))
+						return false
+					}
+				case l.Kind == "desc" || l.Kind == "payee":
+					md, ok := hoverText(s, uri, l.Line, mid)
+					c.Count("payee_hovers", 1)
+					if !ok {
+						fail("missing-hover(payee)", fmt.Sprintf("no hover on payee %q at %s %d:%d", l.Name, w.Names[from], l.Line, mid))
+						return false
+					}
+					if len(payeeFiles[l.Name]) >= 2 {
+						c.Count("figures_over_several_files", 1)
+						c.Nontrivial(HashStr(fmt.Sprintf("%d|payee|%s|%d", idx, l.Name, from)))
+					}
+					n, okn := intAfter(md, "**Transactions:**")
+					if !okn || n != payees[l.Name] {
+						fail("wrong-count(payee)", fmt.Sprintf("hover on payee %q asked from %s: %d transactions, expected %d over %v", l.Name, w.Names[from], n, payees[l.Name], scopeNames(w, scope)))
+						return false
+					}
+				case (l.Kind == "tagname" || l.Kind == "tagvalue") && l.Posting >= -1 && w.Journals[from].Entries[l.Entry].Kind == "tx":
+					ch := l.U0
+					if l.Kind == "tagvalue" {
+						ch = mid
+					}
+					md, ok := hoverText(s, uri, l.Line, ch)
+					c.Count("tag_hovers", 1)
+					if !ok {
+						fail("missing-hover("+l.Kind+")", fmt.Sprintf("no hover on %s %q at %s %d:%d", l.Kind, l.Text, w.Names[from], l.Line, ch))
+						return false
+					}
+					n, okn := intAfter(md, "**Usage:**")
+					want := tagUse[l.Name]
+					if l.Kind == "tagvalue" {
+						want = tagValUse[l.Name+"\x00"+l.Text]
+					}
+					if !okn || n != want {
+						fail("wrong-count("+l.Kind+")", fmt.Sprintf("hover on %s %q of tag %q asked from %s: usage %d, expected %d over %v", l.Kind, l.Text, l.Name, w.Names[from], n, want, scopeNames(w, scope)))
+						return false
+					}
+				case l.Kind == "number" && l.Role == "amount":
+					md, ok := hoverText(s, uri, l.Line, mid)
+					c.Count("amount_hovers", 1)
+					if !ok {
+						fail("missing-hover(amount)", fmt.Sprintf("no hover on amount at %s %d:%d", w.Names[from], l.Line, mid))
+						return false
+					}
+					// model posting
+					p := w.Journals[from].Entries[l.Entry].Tx.Postings()[l.Posting]
+					first := strings.SplitN(md, "\n", 2)[0]
+					rest := strings.TrimPrefix(first, "**Amount:** ")
+					f2 := strings.SplitN(rest, " ", 2)
+					v, okv := new(big.Rat).SetString(f2[0])
+					cm := ""
+					if len(f2) > 1 {
+						cm = f2[1]
+					}
+					if !okv || v.Cmp(p.Amount.Rat()) != 0 || cm != p.Amount.Commodity {
+						fail("wrong-amount", fmt.Sprintf("hover on amount at %s line %d shows %q, the amount is %s %q", w.Names[from], l.Line+1, first, ratStr(p.Amount.Rat()), p.Amount.Commodity))
+						return false
+					}
+					if p.Cost != nil {
+						label := "**Unit cost:** @ "
+						if p.Cost.Total {
+							label = "**Total cost:** @@ "
+						}
+						i := strings.Index(md, label)
+						okc := false
+						if i >= 0 {
+							f3 := strings.SplitN(strings.TrimSpace(strings.SplitN(md[i+len(label):], "\n", 2)[0]), " ", 2)
+							cv, ok3 := new(big.Rat).SetString(f3[0])
+							cc := ""
+							if len(f3) > 1 {
+								cc = f3[1]
+							}
+							okc = ok3 && cv.Cmp(p.Cost.Amt.Rat()) == 0 && cc == p.Cost.Amt.Commodity
+						}
+						if !okc {
+							fail("wrong-amount(cost)", fmt.Sprintf("hover on amount at %s line %d shows %q, the cost is %s %q (total=%v)", w.Names[from], l.Line+1, md, ratStr(p.Cost.Amt.Rat()), p.Cost.Amt.Commodity, p.Cost.Total))
+							return false
+						}
+					}
+				}
+			}
+		}
+		return true
+	}
+	if !checkAll() {
+		return
+	}
+	// a second round after an unsaved edit in ANOTHER file: figures asked from every file must
+	// follow (nothing may be kept from the first round)
+	if nf >= 2 {
+		b := r.Intn(nf)
+		g2 := NewGen(r, st.bad)
+		// a transaction on accounts and a payee that already occur somewhere in the workspace
+		for f := range w.Names {
+			for _, l := range w.Rd[f].Lex {
+				if l.Kind == "account" && len(g2.Accounts) < 6 {
+					g2.Accounts = append(g2.Accounts, pooled{V: l.Name})
+				}
+				if (l.Kind == "desc" || l.Kind == "payee") && len(g2.Payees) < 4 {
+					g2.Payees = append(g2.Payees, pooled{V: l.Name})
+				}
+			}
+		}
+		e := g2.Entry("tx")
+		e.Gap = "one"
+		jb := w.Journals[b]
+		if !jb.FinalNewline {
+			jb.FinalNewline = true
+		}
+		jb.Entries = append(jb.Entries, e)
+		w.render()
+		u := w.URI(s, b)
+		have := s.Stub.PubCount(u)
+		s.ChangeFull(u, w.Texts[b])
+		s.WaitPub(u, have)
+		s.Drain()
+		c.Count("second_round_after_edit_elsewhere", 1)
+		mode += "+after-edit-elsewhere"
+		if !checkAll() {
+			return
 		}
 	}
 	if c.Rep.Evaluations%101 == 0 {
